@@ -147,7 +147,15 @@ impl Story {
                     self.get_state().set_in_expression_evaluation(false);
                 }
                 CommandType::Duplicate => {
-                    let obj = self.get_state().peek_evaluation_stack().unwrap().clone();
+                    let obj = self
+                        .get_state()
+                        .peek_evaluation_stack()
+                        .cloned()
+                        .ok_or_else(|| {
+                            StoryError::InvalidStoryState(
+                                "Evaluation stack is empty: nothing to duplicate.".to_owned(),
+                            )
+                        })?;
                     self.get_state_mut().push_evaluation_stack(obj);
                 }
                 CommandType::PopEvaluatedValue => {
@@ -471,6 +479,10 @@ impl Story {
                         return Err(StoryError::InvalidStoryState("Passed non-integer when creating a list element from a numerical value.".to_owned()));
                     }
 
+                    if list_name_val.is_none() {
+                        return Err(StoryError::InvalidStoryState("Passed non-string as the list name when creating a list element from a numerical value.".to_owned()));
+                    }
+
                     let mut generated_list_value: Option<Value> = None;
                     if let Some(found_list_def) = self
                         .list_definitions
@@ -548,8 +560,14 @@ impl Story {
                             let mut sorted: Vec<(&InkListItem, &i32)> = list.get_ordered_items();
                             sorted.reverse();
                             let random_item = sorted[list_item_index]; // Origin list is simply the origin of the one element
+                            let origin_name = random_item.0.get_origin_name().ok_or_else(|| {
+                                StoryError::InvalidStoryState(format!(
+                                    "LIST_RANDOM picked the item {} which has no origin list",
+                                    random_item.0.get_item_name()
+                                ))
+                            })?;
                             let mut new_list = InkList::from_single_origin(
-                                random_item.0.get_origin_name().unwrap().clone(),
+                                origin_name.clone(),
                                 self.list_definitions.as_ref(),
                             )?;
                             new_list.items.insert(random_item.0.clone(), *random_item.1);
